@@ -153,11 +153,12 @@ PROPS["C12"] = {
              "self-checked by reproducing the victim's own SMP1/SMP2 byte-exactly) accepts or rejects each message per the specification including group membership; Success may be raised only when it accepts and the secrets are equal. "
              "Afterwards: abort, then a fresh honest run each way must succeed. Non-trivial: a deviant message (MAC valid) reached the SMP automaton."),
     "assumptions": COMMON_ASSUME,
-    "exhaustive_checks": ["C12degenerate", "C12fields"],
+    "exhaustive_checks": ["C12degenerate", "C12fields", "C12usercalls"],
     "tests": [
         {"name": "TestProp_C12_Deviant", "quick": {"shards": 8, "checks": 10, "timeout": 500}, "thorough": {"shards": 16, "checks": 150, "timeout": 3000}},
         {"name": "TestProp_C12_Fields", "kind": "plain", "quick": {"shards": 8, "timeout": 500}, "thorough": {"shards": 16, "timeout": 3000}},
         {"name": "TestProp_C12_Degenerate", "kind": "plain", "quick": {"shards": 4, "timeout": 500}, "thorough": {"shards": 4, "timeout": 3000}},
+        {"name": "TestProp_C12_UserCalls", "kind": "plain", "quick": {"shards": 4, "timeout": 500}, "thorough": {"shards": 4, "timeout": 3000}},
         {"name": "TestKnown_C12_V2GroupCheck", "witness_only": True},
     ],
 }
@@ -215,6 +216,9 @@ PROPS["C13"] = {
         {"name": "TestProp_C13_Receive", "crumb_is_violation": True, "ulimit_v": 8388608, "quick": {"shards": 6, "checks": 150, "timeout": 500}, "thorough": {"shards": 16, "checks": 3000, "timeout": 3000}},
         {"name": "TestProp_C13_Auth", "crumb_is_violation": True, "ulimit_v": 8388608, "quick": {"shards": 3, "checks": 100, "timeout": 500}, "thorough": {"shards": 8, "checks": 2500, "timeout": 3000}},
         {"name": "TestProp_C13_Faults", "kind": "plain", "crumb_is_violation": True, "quick": {"shards": 4, "timeout": 500}, "thorough": {"shards": 8, "timeout": 3000}},
+        # native coverage-guided fuzzing, thorough tier only (cannot be seeded; a crasher file is the reproduction)
+        {"name": "FuzzParsers", "kind": "fuzz", "quick": {"skip": True}, "thorough": {"shards": 1, "fuzztime": 90, "timeout": 400}},
+        {"name": "FuzzReceive", "kind": "fuzz", "quick": {"skip": True}, "thorough": {"shards": 1, "fuzztime": 90, "timeout": 400}},
     ],
 }
 
